@@ -129,6 +129,8 @@ def guardxform_obligations(ctx, facts, key, rule="GUARDXFORM"):
     summ = boolsum.Summarizer(facts)
     body = facts.body(key)
     site = fn_site(facts, key)
+    if not body.back_edges():
+        return guardxform_quantified(ctx, facts, key, rule)
     loop = scanact.char_loop(facts, body)
     subj = norm(loop["subject"])
     ctx.ob(rule, "%s: the scan loop reads the chars of the function's text argument" % key, subj == ("arg", 1), fn=key, site=site, detail=nshow(subj))
@@ -414,3 +416,99 @@ def describe(o, cs):
     if o[0] == "lower":
         return "lower(c) for c in {%s}" % boolsum.set_to_ranges(cs, 4)
     return "c in {%s}" % boolsum.set_to_ranges(cs, 4)
+
+
+# ---------------------------------------------------------------------------------------------- loop-free lower-casers
+def guardxform_quantified(ctx, facts, key, rule="GUARDXFORM"):
+    """Lower-casers written without an explicit scan loop: the action is chosen by quantified atoms over the chars of the
+    text (`any`, `all`, `find`).  For every path: the chars that may occur = intersection of the classes implied by the
+    negative-`any` / positive-`all` / `find`-is-None atoms; the action taken on that path must equal to_lowercase on them."""
+    from purlsa import paths as P
+    summ = boolsum.Summarizer(facts)
+    body = facts.body(key)
+    site = fn_site(facts, key)
+    U = boolsum.universe()
+    outs = P.outcomes(facts, key)
+    n = 0
+    for o in outs:
+        allowed = U
+        unknown = []
+        for a in o["atoms"]:
+            if a[0] in ("any", "all") and a[1] == ("Input", 1):
+                cs = boolsum.charset(boolsum.subst_formula(summ.summary(a[2]), {2: boolsum.CPARAM}), facts)
+                if a[0] == "any" and a[3] is False:
+                    allowed &= U & ~cs
+                elif a[0] == "all" and a[3] is True:
+                    allowed &= cs
+                # any-true / all-false: some char has the property; the others are unrestricted
+            elif a[0] == "is" and isinstance(a[1], str) and "Iterator::find(" in a[1] or (a[0] == "callres" and a[1] == "std::iter::Iterator::find"):
+                pos = a[2] if a[0] == "is" else a[3]
+                clo = find_closure(facts, body, o)
+                if clo is None:
+                    unknown.append("find closure")
+                    continue
+                cs = boolsum.charset(boolsum.subst_formula(summ.summary(clo), {2: boolsum.CPARAM}), facts)
+                if pos == "None":
+                    allowed &= U & ~cs
+            elif a[0] == "pred" and any(isinstance(x, tuple) and "Iterator::find" in str(x) for x in a[2]):
+                continue  # a test on the found char restricts that char only, not the rest of the string
+            elif a[0] in ("is", "isin") and ("State" in str(a) or "phi(" in str(a[1])):
+                continue  # branch on a state value already determined by the atoms above on this path
+            else:
+                unknown.append(models.show_canon(a)[:80])
+        pe = P.PathEval(body, o["path"])
+        act = path_action(facts, body, o, pe)
+        n += 1
+        tag = "%s path %s" % (key, "-".join(str(b) for b in o["path"][:8]))
+        if unknown or act.startswith("?"):
+            ctx.ob(rule, "%s: guards and action understood" % tag, False, fn=key, site=site, detail="unknown guards %s; action %s" % (unknown, act))
+            continue
+        bad = allowed & differs(act)
+        cnt = bin(bad).count("1")
+        ctx.ob(rule, "%s: the action `%s` equals char::to_lowercase on every char that can occur on this path" % (tag, act), bad == 0, fn=key, site=site, detail="chars that can occur: %d; mishandled: %d%s" % (bin(allowed).count("1"), cnt, (" e.g. " + boolsum.set_to_ranges(bad, 6)) if cnt else ""))
+    ctx.ob(rule, "%s: paths analysed" % key, n >= 2, fn=key, site=site, detail="%d paths" % n, nontrivial=False)
+
+
+def find_closure(facts, body, o):
+    for (pth, args, b) in o["calls"]:
+        if pth == "std::iter::Iterator::find" and len(args) == 2 and args[1][0] == "closure":
+            it = args[0][2] if args[0][0] == "var" else args[0]
+            if it[0] == "call" and it[1] == scanact.CHARS and strip_conv(it[2][0]) == ("arg", 1):
+                return args[1][1]
+    return None
+
+
+def path_action(facts, body, o, pe):
+    kinds = set()
+    subject_ok = lambda t: strip_conv(t) == ("arg", 1)  # noqa: E731
+    for e in o["effects"]:
+        if e[0] == "call":
+            if e[1].endswith("::make_ascii_lowercase"):
+                kinds.add("ascii_lower")
+            elif e[1].endswith("deref_mut") or e[1] in ("std::iter::Iterator::any", "std::iter::Iterator::all", "std::iter::Iterator::find"):
+                continue
+            else:
+                kinds.add("?effect " + e[1])
+        elif e[0] == "store":
+            if e[1] == ("arg", 1) and is_unicode_lower_of(facts, e[2], subject_ok):
+                kinds.add("unicode_lower")
+            elif isinstance(e[1], tuple) and e[1][0] in ("var", "local"):
+                continue
+            else:
+                kinds.add("?store " + nshow(e[2])[:50])
+    rv = strip_conv(pe.ret())
+    if is_unicode_lower_of(facts, rv, subject_ok):
+        kinds.add("unicode_lower")
+    elif subject_ok(rv) or rv[0] == "var" and subject_ok(strip_conv(rv[2])) or rv[0] == "const" or rv == ("agg", ("tuple",), ()) or rv[0] == "call" and is_conv_of_subject(rv):
+        pass
+    else:
+        kinds.add("?return " + nshow(rv)[:60])
+    if not kinds:
+        return "id"
+    if len(kinds) == 1:
+        return next(iter(kinds))
+    return "?mixed " + ",".join(sorted(kinds))
+
+
+def is_conv_of_subject(rv):
+    return len(rv[2]) == 1 and strip_conv(rv[2][0]) == ("arg", 1) and (rv[1].endswith("::from") or rv[1].endswith("::into") or rv[1].endswith("to_owned") or rv[1].endswith("to_string"))
